@@ -795,10 +795,48 @@ func (e *env) hook() map[string]any {
 	}
 }
 
-func (e *env) observe(ev common.Ev) {
+// lockFree probes the program lock. It is only called when no request
+// is executing inside the server: every request that was started has
+// completed, is held inside a leaf (READ/WRITE/SETATTR/OPEN: the server
+// lock is not held there) or waits for the transaction of its open-owner
+// (it has left the server for that). So the lock must be free; if it is
+// not, a request has returned without releasing it.
+func (e *env) lockFree() bool {
+	return nfsv4impl.VerifNFS40LockFree(e.prog)
+}
+
+// lockHeld ends the history: the server cannot be entered any more (the
+// snapshot hook would block as well). Requests held at a gate are let go
+// (they will wait for the lock forever); nothing else is sent.
+func (e *env) lockHeld(after Req, rep any) {
+	e.dead = true
+	if after.Op == "" {
+		after = blankReq("NONE")
+	}
+	if rep == nil {
+		rep = Rep{Pre: "NONE", St: "NONE"}
+	}
+	e.tr.Emit(common.Ev{"ev": "lockheld", "after": after, "rep": rep, "leaf": e.alloc.snapshot()})
+	for id, p := range e.pending {
+		close(p.g.release)
+		delete(e.pending, id)
+	}
+}
+
+// observe logs an event together with the leaf counters and the hook
+// snapshot; ev must carry the request it follows as "req". It returns
+// false if the history had to be ended because the server lock was left
+// held.
+func (e *env) observe(ev common.Ev) bool {
+	if !e.lockFree() {
+		req, _ := ev["req"].(Req)
+		e.lockHeld(req, ev["rep"])
+		return false
+	}
 	ev["leaf"] = e.alloc.snapshot()
 	ev["hook"] = e.hook()
 	e.tr.Emit(ev)
+	return true
 }
 
 // ---------------------------------------------------------------------------
@@ -808,6 +846,10 @@ func (e *env) observe(ev common.Ev) {
 // and logs it. The returned id is > 0 if the request is in flight.
 func (e *env) do(r Req) (Rep, int) {
 	if e.dead {
+		return Rep{Pre: "DEAD", St: "DEAD"}, 0
+	}
+	if !e.lockFree() {
+		e.lockHeld(blankReq("NONE"), Rep{Pre: "NONE", St: "NONE"})
 		return Rep{Pre: "DEAD", St: "DEAD"}, 0
 	}
 	if r.Gate && r.Op == "OPEN" && e.openInFlight() > 0 {
@@ -835,7 +877,9 @@ func (e *env) do(r Req) (Rep, int) {
 		return Rep{Pre: "PANIC", St: "PANIC"}, 0
 	}
 	rep := e.reduce(&r, p.npre, created, res.res)
-	e.observe(common.Ev{"ev": "op", "req": r, "rep": rep})
+	if !e.observe(common.Ev{"ev": "op", "req": r, "rep": rep}) {
+		return Rep{Pre: "DEAD", St: "DEAD"}, 0
+	}
 	return rep, 0
 }
 
@@ -872,28 +916,37 @@ func (e *env) drain() {
 		ids = append(ids, id)
 	}
 	sort.Ints(ids)
+	// First wait for all of them (they run concurrently once woken, and
+	// the server must be quiet when it is observed; at most one of them
+	// is not a retransmission, so the order in which they are logged
+	// afterwards does not matter).
+	type outcome struct {
+		p       *pendingOp
+		o       opResult
+		got     bool
+		created int
+	}
+	outs := []outcome{}
 	for _, id := range ids {
 		p := e.parked[id]
 		delete(e.parked, id)
 		if e.dead {
 			continue
 		}
-		created := e.alloc.created()
-		var o opResult
-		got := false
+		out := outcome{p: p, created: e.alloc.created()}
 		still := 0
 		deadline := time.Now().Add(120 * time.Second)
-		for !got {
+		for !out.got {
 			select {
-			case o = <-p.done:
-				got = true
+			case out.o = <-p.done:
+				out.got = true
 				continue
 			default:
 			}
 			// Parked although the transaction it waited for is over
 			// (seen on several consecutive looks, so that a goroutine
 			// that is just being woken is not mistaken for one).
-			if parkedGoroutines() >= leakedParked+len(e.parked)+1 {
+			if parkedGoroutines() >= leakedParked+1 {
 				still++
 			} else {
 				still = 0
@@ -906,19 +959,30 @@ func (e *env) drain() {
 			}
 			time.Sleep(2 * time.Millisecond)
 		}
-		if !got {
+		if !out.got {
 			leakedParked++
-			e.dead = true
-			e.tr.Emit(common.Ev{"ev": "hang", "id": id, "req": p.req})
-			continue
 		}
-		if o.panicMsg != "" {
-			e.dead = true
-			e.tr.Emit(common.Ev{"ev": "panic", "msg": o.panicMsg, "pk": panicKind(o.panicMsg), "stack": o.stack, "req": p.req, "leaf": e.alloc.snapshot()})
-			continue
+		outs = append(outs, out)
+	}
+	for _, out := range outs {
+		p := out.p
+		if e.dead {
+			return
 		}
-		rep := e.reduce(&p.req, p.npre, created, o.res)
-		e.observe(common.Ev{"ev": "op", "req": p.req, "rep": rep})
+		if !out.got {
+			e.dead = true
+			e.tr.Emit(common.Ev{"ev": "hang", "id": p.id, "req": p.req})
+			return
+		}
+		if out.o.panicMsg != "" {
+			e.dead = true
+			e.tr.Emit(common.Ev{"ev": "panic", "msg": out.o.panicMsg, "pk": panicKind(out.o.panicMsg), "stack": out.o.stack, "req": p.req, "leaf": e.alloc.snapshot()})
+			return
+		}
+		rep := e.reduce(&p.req, p.npre, out.created, out.o.res)
+		if !e.observe(common.Ev{"ev": "op", "req": p.req, "rep": rep}) {
+			return
+		}
 	}
 }
 
